@@ -2,6 +2,7 @@ package checks
 
 import (
 	"bytes"
+	"context"
 	"encoding/binary"
 	"encoding/hex"
 	"fmt"
@@ -12,6 +13,7 @@ import (
 	"testing"
 
 	"github.com/ipld/go-storethehash/store"
+	"github.com/ipld/go-storethehash/store/vhook"
 	"pgregory.net/rapid"
 )
 
@@ -524,6 +526,60 @@ func exploreLegacy(ev *Evidence, c LegacyCase, exhaustive bool, fatalf func(stri
 		if v != nil && ev.Report(v, rp) {
 			fatalf("%v", v)
 		}
+	}
+	// Cancellation clause: the conversion is interrupted by its context being
+	// cancelled when the n-th named point is reached (the open then fails, or
+	// not, if nothing looked at the context any more); a normal open
+	// afterwards must complete it with the same result.
+	cancelAt := func(n int) {
+		dir2 := newScratch("legc")
+		defer os.RemoveAll(dir2)
+		rec.pointState(0).Image.writeTo(dir2)
+		ctx, cancel := context.WithCancel(context.Background())
+		defer cancel()
+		count := 0
+		point := ""
+		vhook.SetHandler(func(name string) {
+			count++
+			if count == n {
+				point = name
+				cancel()
+			}
+		})
+		var v *Violation
+		func() {
+			defer vhook.SetHandler(nil)
+			v = guard(-1, "upgrade-cancelled", func() *Violation {
+				s, err := store.OpenStore(ctx, cfg.Primary, filepath.Join(dir2, dataBase), filepath.Join(dir2, idxBase), cfg.Immutable, storeOptions(cfg)...)
+				if err == nil {
+					s.Close()
+				}
+				return nil
+			})
+		}()
+		if v == nil && point != "" {
+			_, v = checkConverted(dir2, cfg, c.Keys, build.model, c.Suffix, "cancelled@"+point, build.dangling, nil)
+		}
+		ev.Record(struct {
+			H string
+			N int
+		}{rec.pointState(0).Image.hash(), n}, nt, "cancel:state", "cancel:at:"+strings.SplitN(point+".", ".", 2)[0])
+		if v != nil {
+			wl := c
+			rp := LegacyReplay{Cfg: cfg, Keys: c.Keys, Model: hm, Point: fmt.Sprintf("cancel#%d@%s", n, point), Image: hexImage(rec.pointState(0).Image), Suffix: c.Suffix, Dangling: build.dangling, Workload: &wl}
+			if ev.Report(v, rp) {
+				fatalf("%v", v)
+			}
+		}
+	}
+	if exhaustive {
+		stride := len(rec.snaps)/40 + 1
+		for n := 1; n < len(rec.snaps); n += stride {
+			cancelAt(n)
+		}
+	} else if len(c.Picks) > 0 && len(rec.snaps) > 1 {
+		cancelAt(1 + c.Picks[0]%(len(rec.snaps)-1))
+		cancelAt(1 + c.Picks[len(c.Picks)-1]%(len(rec.snaps)-1))
 	}
 	if exhaustive {
 		for n := 0; n < len(rec.snaps); n++ {
